@@ -83,12 +83,26 @@ def gen_cases(rng, tier):
         if k == 4 or all(isinstance(x, int) and not isinstance(x, bool) for x in cols.get('n', ['x'])):
             # the declared type of the numeric key field: numbers compare as numbers whatever the schema calls them
             cases[-1]['ntype'] = rng.pick(['any', 'integer', 'year', 'number', 'year'])
+        if k in (0, 2, 4, 6) and rng.chance(0.3):
+            cases[-1]['subclass'] = True        # numbers that are instances of subclasses of int / Decimal order as numbers
         if k in (0, 4) and rng.chance(0.5):
             cases[-1]['lead'] = rows_enc([dict([('i', j)] + [(c_, rng.pick(['x', 'b', 'x1'])) for c_ in cols]) for j in range(rng.randint(1, 3))])
     for fmt_key in ('{n}:{m}', '{n}!{m}', '{n}{m:03}', '{m:03}-{n}'):
         rows_ = [{'i': j, 'n': n_, 'm': m_} for j, (n_, m_) in enumerate([(10, 1), (-3, 5), (2, 12), (-20, 0), (2, 5), (100, 1), (-3, 1)])]
         for rev in (False, True):
             cases.append({'kind': 'sort', 'rows': rows_enc(rows_), 'key': ['fmt', fmt_key], 'reverse': rev, 'batch_size': 1000, 'names': ['i', 'n', 'm']})
+    # numbers as IntEnum members and user subclasses, mixed with plain ones
+    rows_ = [{'i': j, 'n': n_} for j, n_ in enumerate([10, 100, 5, -20, -5, 0, 7, 1000, decimal.Decimal('2.5'), -1000])]
+    for key in (['list', ['n']], ['fmt', '{n}']):
+        for rev in (False, True):
+            cases.append({'kind': 'sort', 'rows': rows_enc(rows_), 'key': key, 'reverse': rev, 'batch_size': 1000, 'names': ['i', 'n'], 'subclass': True})
+    # keys that agree in their first 1100 characters (long text; more than sixty-four numeric key fields)
+    long_rows = [{'i': j, 't': 'k' * 1100 + suf} for j, suf in enumerate(['m', 'b', 'z', 'a', 'y'])]
+    for key in (['list', ['t']], ['fmt', '{t}'], ['callable', 't']):
+        cases.append({'kind': 'sort', 'rows': rows_enc(long_rows), 'key': key, 'reverse': key[0] == 'fmt', 'batch_size': 1000, 'names': ['i', 't']})
+    wide = ['f%02d' % q for q in range(70)]
+    wide_rows = [dict([('i', j)] + [(f, 1) for f in wide[:-1]] + [(wide[-1], last)]) for j, last in enumerate([5, 3, 9, 1])]
+    cases.append({'kind': 'sort', 'rows': rows_enc(wide_rows), 'key': ['list', wide], 'reverse': False, 'batch_size': 1000, 'names': ['i'] + wide})
     # above the ordered store's 10240-entry cache (the result must not depend on fitting in it), both directions
     for big, rev in ([(10241, True)] if tier != 'thorough' else [(10241, True), (10241, False), (12000, True), (12000, False)]):
         cols = {'n': list(range(-50, 50))}
@@ -132,8 +146,33 @@ def step_of(case):
     return DF.sort_rows(key, reverse=case['reverse'], batch_size=case['batch_size'])
 
 
+class _MyInt(int):
+    pass
+
+
+class _MyDec(decimal.Decimal):
+    pass
+
+
+import enum
+_Level = enum.IntEnum('_Level', dict(('L%d' % (i + 1000), i) for i in range(-1000, 1001)))
+
+
+def _subclassed(v):
+    """the same number as an instance of a subclass of its type (an IntEnum member, a user subclass of int or Decimal)"""
+    if isinstance(v, bool):
+        return v
+    if isinstance(v, int):
+        return _Level(v) if -1000 <= v <= 1000 and v % 2 == 0 else _MyInt(v)
+    if isinstance(v, decimal.Decimal):
+        return _MyDec(v)
+    return v
+
+
 def run_impl(case):
     rows = rows_dec(case['rows'])
+    if case.get('subclass'):
+        rows = [dict((k, _subclassed(v) if k in ('n', 'm') else v) for k, v in r.items()) for r in rows]
     res = mk_resource('t', case['names'], rows, types=dict((n, case.get('ntype', 'any') if n in ('n', 'm') else 'any') for n in case['names']))
     rs = [res]
     if case.get('lead'):
